@@ -2,6 +2,7 @@ package main
 
 import (
 	"fmt"
+	"strconv"
 	"strings"
 
 	"github.com/vmware/go-ipfix/pkg/collector"
@@ -19,6 +20,8 @@ import (
 //	                              built from the elements, whatever their values: GetBuffer only logs
 //	                              the error of an element and goes on. Built twice, by AddRecordV2 and
 //	                              by AddRecord; the two must agree.)
+//	ie recbufx <elems> <k>     -> the same answer as `ie recbuf <elems>`: the record is built from the first k
+//	                              elements, GetBuffer is called, the others are appended by AddInfoElement
 //	                              Elements of a type without typed constructor (mkElem's default branch)
 //	                              are carried by an octet-array / unsigned64 / boolean element; for a byte
 //	                              value and declared length 65535 that carrier reports len(value)+1 -
@@ -110,9 +113,64 @@ func recbuf(tok string) string {
 	return fmt.Sprintf("buf %d %s", l2, hexs(b2))
 }
 
+// recbufx: the record is built from the first k elements, its buffer is taken (as the exporter's sanity check or a
+// user does), then the remaining elements are appended one at a time with AddInfoElement, the buffer taken again
+// after each: what comes out at the end must be what a record built from all the elements in one go gives.
+func recbufx(tok string, k int) string {
+	all, err := parseElems(tok)
+	if err != nil || k < 0 || k > len(all) {
+		return "bad-op"
+	}
+	build := func(v2 bool) (int, []byte, error) {
+		elems, _ := parseElems(tok)
+		set := entities.NewSet(false)
+		if err := set.PrepareSet(entities.Data, 256); err != nil {
+			return 0, nil, err
+		}
+		if v2 {
+			err = set.AddRecordV2(elems[:k:k], 256)
+		} else {
+			err = set.AddRecord(elems[:k], 256)
+		}
+		if err != nil {
+			return 0, nil, err
+		}
+		rec := set.GetRecords()[0]
+		rec.GetBuffer()
+		for _, e := range elems[k:] {
+			if err := rec.AddInfoElement(e); err != nil {
+				return 0, nil, err
+			}
+			if b := rec.GetBuffer(); len(b) != rec.GetRecordLength() {
+				return 0, nil, fmt.Errorf("buffer of %d bytes for a record of %d", len(b), rec.GetRecordLength())
+			}
+		}
+		return rec.GetRecordLength(), rec.GetBuffer(), nil
+	}
+	l2, b2, err := build(true)
+	if err != nil {
+		return "adderr " + strings.ReplaceAll(err.Error(), " ", "_")
+	}
+	l0, b0, err := build(false)
+	if err != nil {
+		return "adderr " + strings.ReplaceAll(err.Error(), " ", "_")
+	}
+	if l2 != l0 || hexs(b2) != hexs(b0) {
+		return fmt.Sprintf("paths-differ %d %s %d %s", l2, hexs(b2), l0, hexs(b0))
+	}
+	return fmt.Sprintf("buf %d %s", l2, hexs(b2))
+}
+
 func engIE(a []string) string {
 	if len(a) == 2 && a[0] == "recbuf" {
 		return recbuf(a[1])
+	}
+	if len(a) == 3 && a[0] == "recbufx" {
+		k, err := strconv.Atoi(a[2])
+		if err != nil {
+			return "bad-op"
+		}
+		return recbufx(a[1], k)
 	}
 	if len(a) < 3 {
 		return "bad-op"
